@@ -103,6 +103,13 @@ inductive ApiResp where
   | notApplicable (why : String)
   deriving Repr, DecidableEq, Inhabited
 
+/-- the response without the identity of the key pair that produced it (what an observer who cannot verify signatures sees
+    besides the signature bytes) -/
+def ApiResp.noKey : ApiResp → ApiResp
+  | .token _ h => .token 0 h
+  | .plain _ => .plain 0
+  | r => r
+
 section
 variable (valid : String → Bool) (cfg : ApiCfg) (keyDir : String)
 
